@@ -28,12 +28,12 @@ import (
 // pool after every operation.
 
 type c17Op struct {
-	K  string `json:"k"`            // add pack mark unmark get tick restart addmany
-	T  int    `json:"t,omitempty"`  // transaction index
-	B  int    `json:"b,omitempty"`  // block number for mark/unmark
-	N  int    `json:"n,omitempty"`  // count (mark: how many pending; addmany)
-	E  int    `json:"e,omitempty"`  // mark: how many evicted
-	S  int    `json:"s,omitempty"`  // pack: state nonce variant
+	K string `json:"k"`           // add pack mark unmark get tick restart addmany
+	T int    `json:"t,omitempty"` // transaction index
+	B int    `json:"b,omitempty"` // block number for mark/unmark
+	N int    `json:"n,omitempty"` // count (mark: how many pending; addmany)
+	E int    `json:"e,omitempty"` // mark: how many evicted
+	S int    `json:"s,omitempty"` // pack: state nonce variant
 }
 
 type c17Tx struct {
@@ -65,7 +65,7 @@ func (c17) Budget(tier string) runner.Budget {
 
 func (c17) Describe() runner.Description {
 	return runner.Description{
-		Rule: "each plan: 10..150 operations on a real TxPool over <=5 senders with nonce-checked and request-id transactions (nonces in sequence, repeated, ahead; some plans with >200 pending): AddTransaction (fresh, duplicate, already executed, evicted), PackForCast against a state whose nonces the plan sets, MarkExecuted (receipts + evictions), UnMarkExecuted (reorg), GetTransaction / IsExisted / GetExecuted, simulated firings of the pending-cycle ticker (expiry), restart of the node over the same disk. Reference = sequential pool (pending in insertion order with age, executed map, evicted set). After every op: membership lookups agree; a pack has no duplicates, <=200 entries, no executed hash, each sender's nonce-checked transactions in ascending nonce order and none ahead of state nonce + that sender's already placed in-sequence transactions, and (pending <=200) contains every eligible pending transaction; after unmark the block's transactions are pending and packable again; after re-mark they are not; executed records survive a restart. distinct_nontrivial = distinct op-kind sequences containing mark and unmark.",
+		Rule:        "each plan: 10..150 operations on a real TxPool over <=5 senders with nonce-checked and request-id transactions (nonces in sequence, repeated, ahead; some plans with >200 pending): AddTransaction (fresh, duplicate, already executed, evicted), PackForCast against a state whose nonces the plan sets, MarkExecuted (receipts + evictions), UnMarkExecuted (reorg), GetTransaction / IsExisted / GetExecuted, simulated firings of the pending-cycle ticker (expiry), restart of the node over the same disk. Reference = sequential pool (pending in insertion order with age, executed map, evicted set). After every op: membership lookups agree; a pack has no duplicates, <=200 entries, no executed hash, each sender's nonce-checked transactions in ascending nonce order and none ahead of state nonce + that sender's already placed in-sequence transactions, and (pending <=200) contains every eligible pending transaction; after unmark the block's transactions are pending and packable again; after re-mark they are not; executed records survive a restart. distinct_nontrivial = distinct op-kind sequences containing mark and unmark.",
 		Assumptions: []string{"the pending pool is memory-only by design: a restart empties it (model follows)", "the per-block limit (200) is the property text's 'per-block limit'"},
 		Real:        []string{"service/transaction_pool.go", "service/simple_container.go (gmap list map, ring ageing)", "goleveldb executed store over simulated storage", "types transaction codec (executed records)"},
 		Stub:        []string{"chain (the harness plays it: builds headers/receipts)", "ConsensusHelper", "network"},
@@ -385,6 +385,19 @@ func (c17) Exec(raw json.RawMessage, st *simrt.Stats, log *simrt.Log) *simrt.Vio
 				btx = append(btx, t)
 				rc := types.NewReceipt(nil, false, 0, hdr.Height, "", t.Source, "")
 				rc.TxHash = h
+				// receipts as contract transactions leave them: logs with 0..1 topics (LOG0: an empty, non-nil topic list,
+				// as the EVM's makeLog builds it), result text, failed status
+				switch byHash[h] % 4 {
+				case 1:
+					rc.Logs = []*types.Log{{Address: common.HexToAddress(node.Account(1)), Topics: []common.Hash{}, Data: []byte{1, 2, 3}, TxHash: h}}
+				case 2:
+					rc.Logs = []*types.Log{{Address: common.HexToAddress(node.Account(2)), Topics: []common.Hash{common.BytesToHash([]byte{7})}, Data: nil, TxHash: h},
+						{Address: common.HexToAddress(node.Account(3)), Topics: []common.Hash{}, Data: []byte{9}, TxHash: h}}
+					rc.Result = "0x01"
+				case 3:
+					rc.Status = types.ReceiptStatusFailed
+					rc.Msg = "execution reverted"
+				}
 				rcs = append(rcs, rc)
 			}
 			var evicted []common.Hash
